@@ -41,10 +41,13 @@ def chronological : List BEntry → Bool
   | a :: b :: rest => decide (a.date ≤ b.date) && chronological (b :: rest)
   | _ => true
 
-/-- `a` is open on day `D`: some open of `a` dated `o ≤ D` with no close of `a` dated in `[o, D)` -/
-def openOn (es : List BEntry) (a : Account) (D : Int) : Bool :=
-  (opensOf es).any (fun o => o.account = a && decide (o.date ≤ D) &&
-    (closesOf es).all (fun c => !(c.account = a && decide (o.date ≤ c.date) && decide (c.date < D))))
+/-- `a` is open on day `D` given the opens and closes of a ledger: some open of `a` dated `o ≤ D` with no close of `a`
+dated in `[o, D)` -/
+def openOnL (os : List Open) (cs : List Close) (a : Account) (D : Int) : Bool :=
+  os.any (fun o => o.account = a && decide (o.date ≤ D) &&
+    cs.all (fun c => !(c.account = a && decide (o.date ≤ c.date) && decide (c.date < D))))
+
+def openOn (es : List BEntry) (a : Account) (D : Int) : Bool := openOnL (opensOf es) (closesOf es) a D
 
 /-- the description `Valuate` gives the value adjustment of a position on account `a` -/
 def adjDesc (desc : String) (a : Account) : Bool :=
